@@ -322,6 +322,9 @@ def run(chk):
     # slots that are not public may only appear in a header if the call compiles (it cannot): such a call has to be rejected
     for n, body in enumerate(("onPlain: a.guarded()", "onPlain: { a.guardedInt(1); a.poke() }", "onPlain: a.hidden()", "onPlain: guarded()", "ival: { a.guarded(); return a.ival }")):
         docs.append(("nonpublic%d" % n, P.HEAD + "  TSource { id: t0\n    %s\n  }\n}\n" % body, [VERIF_METATYPES], True))
+    # signals that carry a flags value (QFlags<T>, passed by value): the signal pointers of the connections must name the declared parameter lists
+    docs.append(("flagsignal", P.HEAD + "  TSource { id: t0; onOptsPicked: a.poke() }\n  TSource { id: t1; onOptsAndText: function(o: TSource.Opts, s: QString) { a.text = s } }\n"
+                 "  TSource { id: t2; onModed: a.poke(); onOptsPicked: { a.opts = a.opts | TSource.OptX } }\n}\n", [VERIF_METATYPES], True))
     docs.append(("ctxquote", P.HEAD + "  TSource { id: t0; text: a.flag ? qsTr(\"x\") : a.text }\n}\n", [VERIF_METATYPES], True))
     for n, g in enumerate(GADGET_DOCS):
         docs.append(("gadget%d" % n, g, [QT5_METATYPES, VERIF_T_METATYPES], False))
@@ -340,7 +343,7 @@ def run(chk):
         res = translate([{"id": name, "src": qml, "type_name": tn, "modes": ["generate"], "lowercase": not keep}], metatypes=mts, procs=1)
         run_ = res[name]["generate"]
         if run_.get("panic") or not P.is_accepted(run_):
-            if name.startswith(("bind", "hand", "wide", "collide", "observers", "minmax", "shiftu", "empty", "uninit", "keepcase")):
+            if name.startswith(("bind", "hand", "wide", "collide", "observers", "minmax", "shiftu", "empty", "uninit", "keepcase", "flagsignal")):
                 raise ToolError("document %s not accepted: %s" % (name, json.dumps(run_.get("diags"))[:600] + str(run_.get("panic"))))
             continue
         todo.append((name, qml, tn, run_, comp))
